@@ -121,3 +121,28 @@ Definition res_in (w : fw) (r : Z) (E : I.type) : bool :=
   end.
 Definition is_fin (w : fw) (r : Z) : bool := match decode w r with VFin _ _ => true | _ => false end.
 Definition pt_of (w : fw) (b : Z) : option I.type := match decode w b with VFin m e => Some (pt m e) | _ => None end.
+
+(* ---- float kernels behind the activations (allowances measured on gorgonia / Go math) ---- *)
+(* an integer upper bound of |z| *)
+Definition abs_up (z : I.type) : Z :=
+  match I.abs z with
+  | Interval.Float.Ibnd _ u => match F.toF u with
+                                | Basic.Float _ m e => (if (0 <=? e) then Z.pos m * 2 ^ e else Z.pos m / 2 ^ (- e) + 1)
+                                | _ => 0 end
+  | _ => 1000
+  end.
+(* gorgonia's float32 Exp: relative error growing with |z| (allowance (8 + 4|z|) u); Go's float64 math.Exp: 4u *)
+Definition f_exp (w : fw) (z : I.type) : I.type :=
+  match w with W32 => widen w (8 + 4 * abs_up z) (sexp z) | W64 => widen w 4 (sexp z) end.
+(* Sigmoid as composed in ops/activation.go: 1 / (1 + exp(-x)); when exp(-x) overflows IEEE gives 1/(1+Inf) = 0 *)
+Definition f_sigmoid (w : fw) (p : I.type) : I.type :=
+  let e := f_exp w (I.neg p) in
+  let overflow := negb (I.subset e (I.bnd F.nan (maxfin w))) in
+  let r := I.join (f_div w ione (f_add w ione e)) (widen w 8 (r_sigmoid p)) in
+  if overflow then I.join izero r else r.
+Definition f_tanh (w : fw) (p : I.type) : I.type := widen w 8 (r_tanh p).
+(* max(x, 0) on an interval: exact *)
+Definition f_relu (p : I.type) : I.type :=
+  if I.subset p (I.bnd F.zero F.nan) then p
+  else if I.subset p (I.bnd F.nan F.zero) then izero
+  else I.join izero (I.meet p (I.bnd F.zero F.nan)).
